@@ -9,7 +9,7 @@
 // (0x7f7f7f7f is the float 3.39e38).  Expected: the same 5 bars both times.
 //
 // Build (NO sanitizer, -O0 so that the variable lives on the stack):
-//   g++ -std=gnu++17 -O0 -g $(ls -d /tmp/seed/P12/src/*/include | sed 's/^/-I/') defect_3.cpp -o defect_3 \
+//   g++ -std=gnu++17 -O0 -g $(ls -d /repo/src/*/include | sed 's/^/-I/') defect_3.cpp -o defect_3 \
 //       -lboost_program_options -ltbb && ./defect_3
 // Independent confirmation:  valgrind --track-origins=yes <utility> file.csv -d 3
 //   -> "Conditional jump or move depends on uninitialised value(s)" at Persistent_cohomology.h:261 and :421
@@ -21,7 +21,7 @@
 // l.83 initialises the variable.  (src/Rips_complex/utilities/rips_persistence.cpp l.41/l.92 has the same flaw.)
 
 #define main utility_main
-#include "/tmp/seed/P12/src/Collapse/utilities/distance_matrix_edge_collapse_rips_persistence.cpp"
+#include "/repo/src/Collapse/utilities/distance_matrix_edge_collapse_rips_persistence.cpp"
 #undef main
 
 #include <cstdio>
